@@ -1,0 +1,8 @@
+//go:build verif
+
+package admission
+
+// VerifC14DetectConfigurationAndWebhook exposes detectConfigurationAndWebhook.
+func VerifC14DetectConfigurationAndWebhook(path string) (string, string) {
+	return detectConfigurationAndWebhook(path)
+}
